@@ -1,5 +1,6 @@
 """C14 — copies, conversions and rebuilds denote the same matrix with the right dtype."""
 import json
+import os
 import warnings
 from collections import OrderedDict
 
@@ -797,7 +798,10 @@ def run(chk):
     batches_all = [(), (2,), (2, 1), (1, 2)]
     lines, expect = [], []
     seen_cls = set()
+    only = os.environ.get("VERIF_C14_FILTER")  # development only: restrict the recipes (seeded-change experiments)
     for ri, name in enumerate(R):
+        if only and not any(o in name for o in only.split("|")):
+            continue
         extra = chk.rng.choice(batches_all[1:])
         bs = batches_all if thorough else [(), extra]
         for b in bs:
@@ -805,7 +809,7 @@ def run(chk):
                 for dflt in (F32, F64):
                     if not thorough and b != () and src == dflt and chk.rng.random() < 0.5:
                         continue
-                    seeds = [chk.rng.randrange(2 ** 30) for _ in range(2 if thorough else 1)]
+                    seeds = [chk.rng.randrange(2 ** 30) for _ in range(2 if (thorough and b == ()) else 1)]
                     for seed in seeds:
                         case = Case(name, b, src, dflt, seed)
                         try:
@@ -816,7 +820,7 @@ def run(chk):
                             continue
                         run_case(chk, enc, R, case, OPS, lines, expect, overridden)
     if thorough:
-        for i in range(120):
+        for i in range(0 if only else 120):
             nest = (chk.rng.randrange(2 ** 30), chk.rng.choice([1, 2, 2, 3]))
             b = chk.rng.choice(batches_all[:3])
             src, dflt = chk.rng.choice([F32, F64]), chk.rng.choice([F32, F64])
